@@ -3399,27 +3399,28 @@ let edit_word u seg0 a =
 (** val transpose_words : uData -> (str -> str list) -> nat -> bool m **)
 
 let transpose_words u seg0 n0 =
-  bind (move_to_next_word u seg0 AtAfterEnd WEmacs n0) (fun _ ->
-    bind get (fun b1 ->
-      let w2_end = b1.pos in
-      bind (move_to_prev_word u seg0 WEmacs (S O)) (fun _ ->
-        bind get (fun b2 ->
-          let w2_beg = b2.pos in
-          bind (move_to_prev_word u seg0 WEmacs n0) (fun _ ->
-            bind get (fun b3 ->
-              let w1_beg = b3.pos in
-              bind (move_to_next_word u seg0 AtAfterEnd WEmacs (S O))
-                (fun _ ->
-                bind get (fun b4 ->
-                  let w1_end = b4.pos in
-                  if (||) (Nat.eqb w1_beg w2_beg) (Nat.ltb w2_beg w1_end)
-                  then ret false
-                  else bind (lift (slice b4.buf w1_beg w1_end)) (fun w1 ->
-                         bind (drain w2_beg w2_end DForward) (fun w2 ->
-                           bind (insert_str w2_beg w1) (fun _ ->
-                             bind (drain w1_beg w1_end DForward) (fun _ ->
-                               bind (insert_str w1_beg w2) (fun _ ->
-                                 bind (put_pos w2_end) (fun _ -> ret true))))))))))))))
+  bind get (fun b0 ->
+    bind (move_to_next_word u seg0 AtAfterEnd WEmacs n0) (fun _ ->
+      bind get (fun b1 ->
+        let w2_end = b1.pos in
+        bind (move_to_prev_word u seg0 WEmacs (S O)) (fun _ ->
+          bind get (fun b2 ->
+            let w2_beg = b2.pos in
+            bind (move_to_prev_word u seg0 WEmacs n0) (fun _ ->
+              bind get (fun b3 ->
+                let w1_beg = b3.pos in
+                bind (move_to_next_word u seg0 AtAfterEnd WEmacs (S O))
+                  (fun _ ->
+                  bind get (fun b4 ->
+                    let w1_end = b4.pos in
+                    if (||) (Nat.eqb w1_beg w2_beg) (Nat.ltb w2_beg w1_end)
+                    then bind (put_pos b0.pos) (fun _ -> ret false)
+                    else bind (lift (slice b4.buf w1_beg w1_end)) (fun w1 ->
+                           bind (drain w2_beg w2_end DForward) (fun w2 ->
+                             bind (insert_str w2_beg w1) (fun _ ->
+                               bind (drain w1_beg w1_end DForward) (fun _ ->
+                                 bind (insert_str w1_beg w2) (fun _ ->
+                                   bind (put_pos w2_end) (fun _ -> ret true)))))))))))))))
 
 (** val replace : nat -> nat -> str -> unit m **)
 
